@@ -97,6 +97,7 @@ type c01Cond struct {
 	dscps    []uint8
 	firstSet int // domain: match-set index of the first key group; groups follow consecutively
 	groups   int
+	sameSetAs string // ip / sip: use the very prefix set of that other condition (the builder de-duplicates equal sets)
 }
 
 var c01Funcs = []string{consts.Function_Domain, consts.Function_Ip, consts.Function_SourceIp, consts.Function_Port, consts.Function_SourcePort,
@@ -154,8 +155,12 @@ func c01Register(b *RoutingMatcherBuilder, conds map[string]*c01Cond) func(*rout
 					c.groups++
 					return b.addDomain(f, key, vals, ob)
 				case 1, 2:
-					for i := 0; i < n; i++ {
-						c.prefixes = append(c.prefixes, c01Prefix(tag+"#"+strconv.Itoa(i)))
+					if c.sameSetAs != "" {
+						c.prefixes = append([]netip.Prefix{}, conds[c.sameSetAs].prefixes...)
+					} else {
+						for i := 0; i < n; i++ {
+							c.prefixes = append(c.prefixes, c01Prefix(tag+"#"+strconv.Itoa(i)))
+						}
 					}
 					if kind == 1 {
 						return b.addIp(f, c.prefixes, ob)
@@ -458,6 +463,26 @@ func Verif_C01_two_rules() {
 		r1.conds = []*c01Cond{c10}
 		return []*config_parser.RoutingRule{
 			{AndFunctions: []*config_parser.Function{f00, f01}, Outbound: of0},
+			{AndFunctions: []*config_parser.Function{f10}, Outbound: of1},
+		}, []*c01Rule{r0, r1}
+	})
+}
+
+// Verif_C01_shared_set: a source-address condition and a destination-address condition over the
+// very same prefix set (the builder stores equal sets once and both conditions refer to the one
+// stored set), in two rules, either possibly negated: each condition is still judged on its own
+// address - the first rule on the packet's source, the second on its destination.
+func Verif_C01_shared_set() {
+	c01Run(func(conds map[string]*c01Cond) ([]*config_parser.RoutingRule, []*c01Rule) {
+		of0, r0 := c01Outbound("r0", false)
+		f00, c00 := c01BuildCond("r0c0", []int{2}, 1, conds)
+		r0.conds = []*c01Cond{c00}
+		of1, r1 := c01Outbound("r1", false)
+		f10, c10 := c01BuildCond("r1c0", []int{1}, 1, conds)
+		c10.sameSetAs = "r0c0"
+		r1.conds = []*c01Cond{c10}
+		return []*config_parser.RoutingRule{
+			{AndFunctions: []*config_parser.Function{f00}, Outbound: of0},
 			{AndFunctions: []*config_parser.Function{f10}, Outbound: of1},
 		}, []*c01Rule{r0, r1}
 	})
